@@ -169,3 +169,98 @@ def warm_flow(f, cfg, seed):
                 pass
     f.eval()
     return f
+
+
+# ----------------------------------------------------------------------------- typed flow programs (C03 / C04)
+PREFIX = {"R": None, "unit": "logit", "unit_c": "cauchycdfinv", "pos": "log", "m11": "atanh"}
+DATA_DOM = {"R": ("R",), "unit": ("open", 0.0, 1.0), "unit_c": ("open", 0.0, 1.0), "pos": ("pos",), "m11": ("open", -1.0, 1.0)}
+BODY_1D = ["pointwise_affine", "leakyrelu", "logtanh", "lu", "qr", "svd", "naive_linear", "actnorm", "batchnorm", "cdf_rq",
+           "cdf_quadratic", "cdf_linear", "cdf_cubic", "ar_affine", "ar_rq", "ar_quadratic", "composite_cdf", "identity",
+           "squash_pair"]
+BODY_2D = BODY_1D + ["permutation", "householder", "coupling_affine", "coupling_additive", "coupling_rq", "coupling_quadratic",
+                     "coupling_linear", "coupling_cubic"]
+
+
+def sample_program_flow(rng, D):
+    # 2-D: only data domains whose prefix has an (almost) unbounded floating-point range (see C03's reachability note)
+    data = str(rng.choice(["R", "R", "R", "unit", "unit_c", "pos", "m11"] if D == 1 else ["R", "R", "unit_c", "pos"]))
+    ctx = int(rng.choice([0, 0, 2]))
+    n = int(rng.integers(1, 4))
+    fams = BODY_1D if D == 1 else BODY_2D
+    parts = []
+    for _ in range(n):
+        fam = str(rng.choice(fams))
+        if fam in ("composite_cdf", "squash_pair"):
+            c = zoo.FAM[fam].sample_cfg(rng, "quick")
+            c["shape"] = [D]
+        else:
+            c = zoo.sample_R_cfg(rng, "quick", D, ctx if fam.startswith(("coupling", "ar_")) else 0, fams=[fam])
+        if "B" in c:
+            c["B"] = float(rng.choice([1.0, 2.5]))
+        parts.append(c)
+    base = str(rng.choice(["standard", "standard", "diag", "cond_diag", "mademog"] if ctx else ["standard", "standard", "diag", "mademog"]))
+    if D >= 2:
+        # Sigmoid..Logit pairs clamp at eps (declared): their image is only +-13.8/T.  In 2-D (no reachability test) they
+        # are used only as the last part in front of a standard normal, whose mass that range covers.
+        parts = [c for c in parts if c["fam"] not in ("squash_pair", "composite_cdf")] or [zoo.sample_R_cfg(rng, "quick", D, 0, fams=["lu"])]
+        if rng.random() < 0.35:
+            c = zoo.FAM["squash_pair"].sample_cfg(rng, "quick")
+            c["shape"] = [D]
+            parts.append(c)
+            base = "standard"
+    return {"flow": "program", "D": D, "ctx": ctx, "data": data, "parts": parts, "base": base,
+            "embed": bool(ctx and rng.random() < 0.3), "policy": str(rng.choice(["fresh", "randn0.3", "randn1"]))}
+
+
+def build_program_flow(cfg, seed):
+    from nflows import flows as Fl, transforms as T, distributions as Dd
+    from nflows.transforms.nonlinearities import CauchyCDFInverse
+    torch.manual_seed(int(seed))
+    D, ctx = cfg["D"], cfg["ctx"]
+    pre = PREFIX[cfg["data"]]
+    parts = []
+    if pre == "logit":
+        parts.append(T.Logit())
+    elif pre == "cauchycdfinv":
+        parts.append(CauchyCDFInverse())
+    elif pre == "log":
+        parts.append(T.InverseTransform(T.Exp()))
+    elif pre == "atanh":
+        parts.append(T.InverseTransform(T.Tanh()))
+    parts += [zoo.build(c) for c in cfg["parts"]]
+    tr = T.CompositeTransform(parts)
+    if cfg["base"] == "standard":
+        base = Dd.StandardNormal([D])
+    elif cfg["base"] == "diag":
+        base = Dd.DiagonalNormal([D])
+    elif cfg["base"] == "cond_diag":
+        base = Dd.ConditionalDiagonalNormal([D], context_encoder=Encoder(ctx, 2 * D, 0.5))
+    else:
+        base = Dd.MADEMoG(features=D, hidden_features=8, context_features=(ctx or None), num_blocks=1,
+                          num_mixture_components=3, custom_initialization=True)
+    emb = nn.Sequential(nn.Linear(3, ctx), nn.Tanh()) if cfg.get("embed") else None
+    f = Fl.Flow(tr, base, embedding_net=emb)
+    zoo.apply_policy(f, cfg.get("policy", "randn0.3"), seed + 1)
+    if cfg["base"] == "diag":
+        with torch.no_grad():
+            base.mean_.copy_(torch.randn(base.mean_.shape) * 0.5)
+            base.log_std_.copy_(torch.randn(base.log_std_.shape) * 0.3)
+    return f
+
+
+def program_data_sample(cfg, n, seed):
+    """in-domain data points for warming data-dependent initialisation"""
+    g = torch.Generator().manual_seed(int(seed))
+    D = cfg["D"]
+    d = cfg["data"]
+    z = torch.randn(n, D, generator=g)
+    if d in ("unit", "unit_c"):
+        x = torch.sigmoid(z)
+    elif d == "pos":
+        x = torch.exp(z)
+    elif d == "m11":
+        x = torch.tanh(z)
+    else:
+        x = z * 1.5
+    c = torch.randn(n, 3 if cfg.get("embed") else cfg["ctx"], generator=g) if cfg["ctx"] else None
+    return x, c
